@@ -104,6 +104,7 @@ def composite_codec_get_coded_const_prefix(codec: CompositeCodec,
 
     for param in codec.parameters:
         if (isinstance(param, MatchingRequestParameter) and
+                0 <= param.request_byte_position and
                 param.request_byte_position + param.byte_length <= len(request_prefix)) or \
             isinstance(param, (CodedConstParameter, PhysicalConstantParameter)):
             param.encode_into_pdu(physical_value=None, encode_state=encode_state)
